@@ -60,6 +60,7 @@ seq_t dtw_distance{{ suffix }}{{ suffix2 }}(seq_t *s1, idx_t l1,
     printf("r=%zu, c=%zu\n", l1, l2);
     #endif
     if (settings->use_pruning || settings->only_ub) {
+        {%- if "euclidean" == inner_dist %}
         {%- if "ndim" in suffix %}
         max_dist = ub_euclidean_ndim{{ suffix2 }}(s1, l1, s2, l2, ndim);
         {%- else %}
@@ -68,9 +69,20 @@ seq_t dtw_distance{{ suffix }}{{ suffix2 }}(seq_t *s1, idx_t l1,
         if (settings->only_ub) {
             return max_dist;
         }
-        {%- if "euclidean" == inner_dist %}
         {%- else %}
-        max_dist = pow(max_dist, 2);
+        if (settings->only_ub) {
+            {%- if "ndim" in suffix %}
+            return ub_euclidean_ndim{{ suffix2 }}(s1, l1, s2, l2, ndim);
+            {%- else %}
+            return ub_euclidean{{ suffix2 }}(s1, l1, s2, l2);
+            {%- endif %}
+        }
+        // Bound in the internal representation (sum of squares), not pow(sqrt(sum), 2)
+        {%- if "ndim" in suffix %}
+        max_dist = euclidean_distance_ndim_sq(s1, l1, s2, l2, ndim);
+        {%- else %}
+        max_dist = euclidean_distance_sq(s1, l1, s2, l2);
+        {%- endif %}
         {%- endif %}
     } else if (max_dist == 0) {
         max_dist = INFINITY;
